@@ -1354,7 +1354,7 @@ func (f *fragment) rangeLT(bitDepth uint, predicate int64, allowEquality bool) (
 	}
 
 	// If predicate is positive, return all positives less than predicate and all negatives.
-	if (predicate >= 0 && allowEquality) || (predicate >= -1 && !allowEquality) {
+	if predicate >= 0 {
 		pos, err := f.rangeLTUnsigned(b.Difference(f.row(bsiSignBit)), bitDepth, upredicate, allowEquality)
 		if err != nil {
 			return nil, err
@@ -1369,6 +1369,11 @@ func (f *fragment) rangeLT(bitDepth uint, predicate int64, allowEquality bool) (
 
 // rangeLTUnsigned returns all bits LT/LTE the predicate without considering the sign bit.
 func (f *fragment) rangeLTUnsigned(filter *Row, bitDepth uint, predicate uint64, allowEquality bool) (*Row, error) {
+	// Nothing is strictly below zero.
+	if predicate == 0 && !allowEquality {
+		return NewRow(), nil
+	}
+
 	keep := NewRow()
 
 	// Filter any bits that don't match the current bit value.
@@ -1423,7 +1428,7 @@ func (f *fragment) rangeGT(bitDepth uint, predicate int64, allowEquality bool) (
 	}
 
 	// If predicate is positive, return all positives greater than predicate.
-	if (predicate >= 0 && allowEquality) || (predicate >= -1 && !allowEquality) {
+	if predicate >= 0 {
 		return f.rangeGTUnsigned(b.Difference(f.row(bsiSignBit)), bitDepth, upredicate, allowEquality)
 	}
 
@@ -1437,6 +1442,11 @@ func (f *fragment) rangeGT(bitDepth uint, predicate int64, allowEquality bool) (
 }
 
 func (f *fragment) rangeGTUnsigned(filter *Row, bitDepth uint, predicate uint64, allowEquality bool) (*Row, error) {
+	// With no value rows only 0 is stored, and 0 is not strictly above any predicate.
+	if bitDepth == 0 && !allowEquality {
+		return NewRow(), nil
+	}
+
 	keep := NewRow()
 
 	// Filter any bits that don't match the current bit value.
